@@ -11,6 +11,7 @@ import BV.Drive.Hasher
 import BV.Drive.Recoder
 import BV.Drive.Dict
 import BV.Drive.Stream
+import BV.Drive.MetaBlock
 
 /-- line protocol: `<engine> <args…>` in, one canonical line out -/
 def dispatch (line : String) : String :=
@@ -29,6 +30,7 @@ def dispatch (line : String) : String :=
   | "ledger" :: rest => BV.Drive.Ledger.handle rest
   | "stream" :: rest => BV.Drive.Stream.handle rest
   | "ffi" :: rest => BV.Drive.FFI.handle rest
+  | "metablock" :: rest => BV.Drive.MetaBlock.handle rest
   | _ => "bad-engine"
 
 partial def loop (h : IO.FS.Stream) (out : IO.FS.Stream) : IO Unit := do
